@@ -1,5 +1,6 @@
 import Driver.Util
 import Driver.Graph
+import Driver.Types
 /-! `tgdriver`: reads one JSON request per line on stdin, answers one JSON line per request. -/
 open Lean Drv
 
@@ -7,6 +8,10 @@ def dispatch (op : String) (inp imp : Json) : Except String Json :=
   match op with
   | "topo" => opTopo inp imp
   | "kahn" => opKahn inp imp
+  | "typeStr" => opTypeStr inp imp
+  | "parseTS" => opParseTS inp imp
+  | "site" => opSite inp imp
+  | "prefix" => opPrefix inp imp
   | _ => .error s!"unknown op {op}"
 
 def handleLine (line : String) : String :=
